@@ -59,7 +59,8 @@ PROPS = {
         'explanation': 'Layout theorem (frames contiguous from the initial offset, varint length + CRC32C of stored bytes, index frame, 512-byte trailer ending in the magic) and separator theorem; every file written by the real writer is decoded and validated clause by clause by the extracted independent decoder and compared byte for byte with the model writer.',
     },
     'C01': {
-        'engines': [{'name': 'rd', 'timeout_quick': 900, 'timeout_thorough': 7200}, {'name': 'wr', 'timeout_quick': 600, 'timeout_thorough': 7200}],
+        'engines': [{'name': 'rd', 'timeout_quick': 900, 'timeout_thorough': 7200}, {'name': 'wr', 'timeout_quick': 600, 'timeout_thorough': 7200},
+                    {'name': 'c20', 'timeout_quick': 600, 'timeout_thorough': 3600}],
         'trusted_base': [WORLD_COMPRESS, 'decompression oracle: mtbl_decompress'],
         'assumptions': ['T01_* hold under explicit size hypotheses: keys/values < 4 GiB, block_size + |key| + |value| + 32 < 2^32 for every entry, index block < 4 GiB, file < 2^64 bytes, statistics < 2^64; compress/decompress are Section variables assumed to round-trip',
                         'madvise has no semantic content in the model; pooled writers are exercised by engine wr (byte-identical files)'],
